@@ -36,6 +36,7 @@ struct Ctx {
     long scale = 0;
     std::vector<Edge> edges;
     std::size_t n = 0, m = 0;
+    std::string kind;
 
     long long scaled(W w) const {            // exact: w * 2^scale is an integer in the exact domain
         double x = std::ldexp((double) w, (int) scale);
@@ -45,6 +46,7 @@ struct Ctx {
     std::size_t id(const Edge &e) const { return get(edge_index, g, e); }
 
     void build(const CaseIn &c) {
+        kind = c.kind;
         scale = std::stol(c.args.at(1));
         for (auto &w : c.body) {
             if (w[0] == "g") { n = std::stoul(w[1]); m = std::stoul(w[2]); for (std::size_t i = 0; i < n; i++) add_vertex(g); }
@@ -156,6 +158,11 @@ void do_exact(Ctx<W> &x, const std::string &variant) {
     std::list<std::list<Edge>> cycles;
     auto wm = get(edge_weight, x.g);
     W ret = W();
+#ifdef PARMCB_VERIF
+    // every odd-cycle search of mcb_sva_signed, in call order (hook in parmcb_sva_signed.hpp)
+    std::vector<parmcb::verif::SearchEvent> events;
+    parmcb::verif::search_hook() = [&](const parmcb::verif::SearchEvent &ev) { events.push_back(ev); };
+#endif
     if (variant == "signed") ret = parmcb::mcb_sva_signed(x.g, wm, std::back_inserter(cycles));
     else if (variant == "fvs") ret = parmcb::mcb_sva_fvs_trees(x.g, wm, std::back_inserter(cycles));
     else if (variant == "iso") ret = parmcb::mcb_sva_iso_trees(x.g, wm, std::back_inserter(cycles));
@@ -164,6 +171,18 @@ void do_exact(Ctx<W> &x, const std::string &variant) {
     else if (variant == "iso_tbb") ret = parmcb::mcb_sva_iso_trees_tbb(x.g, wm, std::back_inserter(cycles));
     else { std::cout << "error unknown-variant\n"; return; }
     shim_end(variant == "signed_tbb");
+#ifdef PARMCB_VERIF
+    parmcb::verif::search_hook() = nullptr;
+    if (x.kind != "exactf")
+        for (auto &ev : events) {
+            std::cout << "hs " << ev.phase << " " << (ev.hidden_branch ? 1 : 0) << " " << ev.source << " ";
+            if (ev.use_limit) std::cout << x.scaled((W) ev.limit); else std::cout << "-";
+            std::cout << " " << (ev.found ? 1 : 0) << " ";
+            if (ev.found) std::cout << x.scaled((W) ev.weight); else std::cout << "-";
+            for (auto h : ev.hidden) std::cout << " " << h;
+            std::cout << "\n";
+        }
+#endif
     for (auto &c : cycles) x.print_cycle("cycle", c);
     std::cout << "ret " << x.scaled(ret) << " " << (x.exact(ret) ? 1 : 0) << "\n";
     { char buf[64]; snprintf(buf, sizeof buf, "%.17g", (double) ret); std::cout << "retf " << buf << "\n"; }
